@@ -1,4 +1,5 @@
 import GitSizer.Proofs.RefGroups
+import GitSizer.Proofs.GenStrs
 /-! # C06 — Reference selection follows last-matching-rule semantics
     Theorems about the model of git/ref_filter.go and internal/refopts (tied to the code by the
     `refs` engine: real RefGroupBuilder + pflag + Finish + Categorize). Regular-expression matching
@@ -24,6 +25,17 @@ theorem walk_iff_selected (env : Env) (st : Store) (opts : List (Opt Pat)) (defa
 
 /-- **a PREFIX matches only at a '/' component boundary** -/
 theorem prefix_boundary (p r : Bytes) : prefixMatch p r = true ↔ PrefixSpec p r := prefixMatch_spec p r
+
+/-- `prefixFilter.Filter` as REGENERATED from git/ref_filter.go on this run (an out-of-range index
+    would be a panic): it never panics and is the '/'-boundary relation, for all byte strings -/
+theorem prefix_filter_source (p r : Bytes) :
+    Gen.Strs.prefixFilter_Filter p r = .ok (prefixMatch p r) ∧
+    (Gen.Strs.prefixFilter_Filter p r = .ok true ↔ PrefixSpec p r) := by
+  refine ⟨prefixFilter_regenerated p r, ?_⟩
+  rw [prefixFilter_regenerated, ← prefixMatch_spec]
+  constructor
+  · intro h; exact Res.ok.inj h
+  · intro h; rw [h]
 
 /-- **@REFGROUP matches exactly the members of that group** -/
 theorem refgroup_pattern_is_membership (env : Env) (st : Store) (sym r : Bytes) :
